@@ -45,6 +45,9 @@ func genAgg(r *Rng, tier string) *Enc {
 	e := NewEnc()
 	df := dataframe.NewDataFrame()
 	ncols := r.Range(1, 3)
+	if r.Chance(3) {
+		ncols = 0 // a frame without columns (fresh, or every column dropped): nothing to aggregate, nothing to refuse
+	}
 	aggTiny = r.Chance(8)
 	defer func() { aggTiny = false }()
 	n := r.SmallN()
@@ -218,6 +221,7 @@ func genAgg(r *Rng, tier string) *Enc {
 		}
 	}
 	hasFill := r.Bool()
+	manyFill := r.Chance(20)
 	fill := Pick(r, []any{0, 1.5, "f", nil})
 	e.Tok("ADD")
 	e.Frame(left)
@@ -229,7 +233,9 @@ func genAgg(r *Rng, tier string) *Enc {
 	var sum *dataframe.DataFrame
 	st, _ = guard(func() error {
 		var err error
-		if hasFill {
+		if hasFill && manyFill {
+			sum, err = left.Add(other, fill, 99, "z") // only the first fill value counts
+		} else if hasFill {
 			sum, err = left.Add(other, fill)
 		} else {
 			sum, err = left.Add(other)
